@@ -78,6 +78,14 @@ Theorem del_md_local :
 Proof. exact del_md_local_proof. Qed.
 Print Assumptions del_md_local.
 
+(* a key materialised with the value None by an earlier read of a default-None entry is
+   deleted like any other key (del_md_local speaks of presence, not of values) *)
+Theorem del_after_read :
+  forall ids md id k ks i, tmem k ks = true ->
+  aget (entry_of (del_axis (Some ks) (read_axis ids md id k)) i) k = None.
+Proof. exact del_after_read_proof. Qed.
+Print Assumptions del_after_read.
+
 (* metadata collapses to None exactly when every entry is empty after the deletion *)
 Theorem del_md_collapse :
   forall ks l, del_axis (Some ks) (Some l) = None <-> l <> [] /\ Forall (fun e => adel_all e ks = []) l.
